@@ -148,6 +148,7 @@ def profile_a(info):
             {'id': 'pipeline-result-summary', 'fn': 'chooseMechanism', 'after': r'/\* views pipeline mechanismsView consumed into mechanisms \*/', 'emit': 'gh_vec = mechanisms;', 'count': 1},
         ],
     )
+    partc.optional_vocabulary(p.calls, ['OptHtToken', 'OptSaslMechanism'])
     p.variants = {'SaslMechanism': info}
     p.indexable = {'QStrList': ('QStrList_size({r})', 'QStrList_at({r}, {i})', 'qstr')}
     p.appendable = {'VecMech': ('VecMech_push_back', 'VecMech_init')}
@@ -260,7 +261,6 @@ def profile_b(info, iana_n, lit):
         'op==:qsv:qsv': ('fn', 'qsv_eq'),
         'QStr::operator QString/0': ('arg', 0),
         'IanaTable::at/1': ('expr', 'IANA_AT({1})'), 'IanaTable::size/0': ('const', '((size_t)IANA_N)'),
-        'static:prefix': static_constexpr_local,
         'expr:InitListExpr:SaslScramMechanism': struct_init, 'expr:InitListExpr:SaslHtMechanism': struct_init,
         'expr:InitListExpr:SaslMechanism': variant_init,
         'fn:fromString/1': fromstring_rule_b, 'fn:into/1': into_rule_b,
@@ -278,6 +278,7 @@ def profile_b(info, iana_n, lit):
     p = Profile(types=types, class_types={'QStr', 'SaslMechanism', 'SaslScramMechanism', 'SaslHtMechanism', 'OptSaslMechanism', 'OptScram', 'OptHt', 'OptInt'},
                 calls=calls, globals_ok={'ianaHashAlgorithms'}, string_types={'qsv'},
                 default_args={'Qt::CaseSensitivity': '1 /* Qt::CaseSensitive */'})
+    partc.optional_vocabulary(p.calls, ['OptInt', 'OptScram', 'OptHt', 'OptSaslMechanism'])
     p.variants = {'SaslMechanism': info}
     p.concrete_strings = True
     p.lit = lit
@@ -470,6 +471,10 @@ void h_choose(void) { SaslMechanism pm; g_probe = pm; g_i = nondet_long(); gh_sr
             'A-CONFIG: QXmppConfiguration::disabledSaslMechanisms / saslAuthMechanism / credentialData are pure getters of the stored values (not lowered)',
             'A-QSV / A-QSTRING (units/C05/model_b.h): QStringView ==, startsWith (non-empty needle, case sensitive), mid(pos) with Qt 5.15 clamping, size; u"..."_s and QStringBuilder operator+ '
             'concatenate UTF-16 code units; results of toString fit 24 code units (else MODEL-LIMIT)',
+            'a function-local `static constexpr` constant is an ordinary const local; a function-local static constexpr std::array (optionally of std::pair, built by to_array) is a const C array '
+            'and a range-for over it an index loop (structured bindings = the pair members); std::optional observers has_value / operator bool / * / -> on every modelled optional',
+            'Sasl2Manager::authenticate: without a stored token no HT mechanism is usable (isMechanismAvailable, verified), so the contract leaves open whether the FAST mechanisms are handed to the '
+            'negotiation in that case; with a token they must be, and never when FAST is not enabled in the configuration',
             'std::array<QStringView, N>::at(i) throws for i >= N (checked as an assertion), ::size() = N; the table ianaHashAlgorithms is extracted from the AST',
             'callers (units/C05/model_c.h, partc.py): A-QLIST-SEQ a QList<QString> is a sequence of up to two array segments, std::ranges::copy(vector, back_inserter(list)) appends; '
             'A-TASK makeReadyTask / QXmppPromise / task(); A-SEND sendData(serializeXml(x)) = "x was sent" (event); QXmpp::Private::contains over std::vector<QString> is an uninterpreted, '
